@@ -34,6 +34,9 @@ struct lp_polynomial_struct {
   const lp_polynomial_context_t* ctx;
 };
 
+/** If A is external and not in the current variable order, bring it to the order */
+void lp_polynomial_external_clean(const lp_polynomial_t* A);
+
 /** Construct from coefficient */
 void lp_polynomial_construct_from_coefficient(lp_polynomial_t* A, const lp_polynomial_context_t* ctx, const coefficient_t* from);
 
